@@ -1,4 +1,4 @@
-package harness
+package c04
 
 import (
 	"bytes"
@@ -7,6 +7,8 @@ import (
 	"math/big"
 	"path/filepath"
 	"testing"
+
+	. "verifharness/h"
 
 	ocr2keepers "github.com/smartcontractkit/chainlink-automation/pkg/v3"
 	simutil "github.com/smartcontractkit/chainlink-automation/tools/simulator/util"
@@ -35,12 +37,12 @@ type c04Case struct {
 func c04Result(p c04Perf) common.CheckResult {
 	var r common.CheckResult
 	if p.Upk >= 1000 {
-		r.UpkeepID = upkeepID(1, p.Upk)
-		ext := &common.LogTriggerExtension{TxHash: hash32("tx", p.Log), Index: uint32(p.Log), BlockHash: hash32("lb", p.Log), BlockNumber: 7}
-		r.Trigger = common.NewLogTrigger(10, hash32("blk", 10), ext)
+		r.UpkeepID = UpkeepID(1, p.Upk)
+		ext := &common.LogTriggerExtension{TxHash: Hash32("tx", p.Log), Index: uint32(p.Log), BlockHash: Hash32("lb", p.Log), BlockNumber: 7}
+		r.Trigger = common.NewLogTrigger(10, Hash32("blk", 10), ext)
 	} else {
-		r.UpkeepID = upkeepID(0, p.Upk)
-		r.Trigger = common.NewTrigger(10, hash32("blk", 10))
+		r.UpkeepID = UpkeepID(0, p.Upk)
+		r.Trigger = common.NewTrigger(10, Hash32("blk", 10))
 	}
 	r.WorkID = simutil.UpkeepWorkID(r.UpkeepID, r.Trigger)
 	r.Eligible = true
@@ -167,11 +169,11 @@ func c04Effective(c c04Case) (int, uint32, uint32) {
 }
 
 func runC04Case(t *testing.T, c *c04Case) {
-	nd := newNode(t, nodeOpts{
-		offchain: fmt.Sprintf(`{"maxUpkeepBatchSize":%d,"gasLimitPerReport":%d,"gasOverheadPerUpkeep":%d}`, c.Batch, c.Limit, c.Overhead),
-		n:        4, f: 1,
+	nd := NewNode(t, NodeOpts{
+		Offchain: fmt.Sprintf(`{"maxUpkeepBatchSize":%d,"gasLimitPerReport":%d,"gasOverheadPerUpkeep":%d}`, c.Batch, c.Limit, c.Overhead),
+		N:        4, F: 1,
 	})
-	defer nd.plugin.Close()
+	defer nd.Plugin.Close()
 	results := make([]common.CheckResult, len(c.Perfs))
 	for i, p := range c.Perfs {
 		results[i] = c04Result(p)
@@ -181,13 +183,11 @@ func runC04Case(t *testing.T, c *c04Case) {
 	if err != nil {
 		t.Fatal(err)
 	}
-	nd.enc.reset(c.FailAt)
-	reports, rerr := nd.plugin.Reports(context.Background(), 7, raw)
+	nd.Enc.Reset(c.FailAt)
+	reports, rerr := nd.Plugin.Reports(context.Background(), 7, raw)
 	c.Err = rerr != nil
 	c.Obs = nil
-	nd.enc.mu.Lock()
-	calls := nd.enc.calls
-	nd.enc.mu.Unlock()
+	calls := nd.Enc.Calls()
 	for i, rep := range reports {
 		var idxs []int
 		if i >= len(calls) {
@@ -217,53 +217,53 @@ func runC04Case(t *testing.T, c *c04Case) {
 
 func c04Term(c c04Case) string {
 	b, l, o := c04Effective(c)
-	upk := newInterner()
-	perfs := coqList(c.Perfs, func(p c04Perf) string {
+	upk := NewInterner()
+	perfs := CoqList(c.Perfs, func(p c04Perf) string {
 		key := fmt.Sprintf("%d", p.Upk)
 		// interned wid: position (work ids are pairwise distinct by construction)
-		return fmt.Sprintf("mkPerf %d %d %d", upk.id(key), p.Gas, upk.id(fmt.Sprintf("w%d/%d", p.Upk, p.Log))+1000000)
+		return fmt.Sprintf("mkPerf %d %d %d", upk.ID(key), p.Gas, upk.ID(fmt.Sprintf("w%d/%d", p.Upk, p.Log))+1000000)
 	})
 	var fail *int
 	if c.FailAt != 0 {
 		fail = &c.FailAt
 	}
-	obs := coqList(c.Obs, func(r []int) string { return coqList(r, coqNat) })
-	return fmt.Sprintf("mkRCase (mkCfg %s %d %d) %s %s %s %s", coqZ(int64(b)), l, o, perfs, coqOptNat(fail), obs, coqBool(c.Err))
+	obs := CoqList(c.Obs, func(r []int) string { return CoqList(r, CoqNat) })
+	return fmt.Sprintf("mkRCase (mkCfg %s %d %d) %s %s %s %s", CoqZ(int64(b)), l, o, perfs, CoqOptNat(fail), obs, CoqBool(c.Err))
 }
 
 func TestC04(t *testing.T) {
-	dir := outDir(t, "C04")
+	dir := OutDir(t, "C04")
 	var cases []c04Case
-	if rf := replayFile(); rf != "" {
-		cases = loadReplayCases[c04Case](t, rf)
+	if rf := ReplayFile(); rf != "" {
+		cases = LoadReplayCases[c04Case](t, rf)
 	} else {
-		cases = append(cases, loadCorpus[c04Case](t, "C04")...)
+		cases = append(cases, LoadCorpus[c04Case](t, "C04")...)
 		cases = append(cases, c04Boundary()...)
-		r := NewRng(envSeed())
-		n := envInt("VERIF_N", 150)
+		r := NewRng(EnvSeed())
+		n := EnvInt("VERIF_N", 150)
 		for i := 0; i < n; i++ {
 			cases = append(cases, c04Random(r))
 		}
 	}
-	cf := newCaseFile("C04", "Model.Reports")
+	cf := NewCaseFile("C04", "Model.Reports")
 	fam := map[string]int{}
 	sizes := map[int]int{}
 	for i := range cases {
 		runC04Case(t, &cases[i])
-		cf.add(c04Term(cases[i]))
+		cf.Add(c04Term(cases[i]))
 		fam[cases[i].Family]++
 		sizes[len(cases[i].Perfs)]++
 	}
-	cf.imports = append(cf.imports, "Base.Util")
-	cf.prelude = "Open Scope N_scope."
-	cf.write(t, dir, "cases.v", "r_case", [][2]string{
+	cf.Imports = append(cf.Imports, "Base.Util")
+	cf.Prelude = "Open Scope N_scope."
+	cf.Write(t, dir, "cases.v", "r_case", [][2]string{
 		{"mism", "find_idx rc_mism cases"},
 		{"bad", "find_idx rc_bad cases"},
 		{"kf_overlimit", "find_idx rc_kf_overlimit cases"},
 		{"cov", "cov_sum (map rc_cov cases)"},
 		{"nontriv", "find_idx (fun k => Nat.ltb 1 (length (rc_obs k))) cases"},
 	})
-	writeJSON(t, filepath.Join(dir, "cases.json"), map[string]any{
-		"property": "C04", "seed": envSeed(), "cases": cases, "families": fam, "sizes": sizes,
+	WriteJSON(t, filepath.Join(dir, "cases.json"), map[string]any{
+		"property": "C04", "seed": EnvSeed(), "cases": cases, "families": fam, "sizes": sizes,
 	})
 }
